@@ -41,9 +41,13 @@ package dataflow
 //@   property C08
 //@   ensures X: xfer(state, x, x.X, x)
 
+// The results of map iteration, select and comma-ok lookups are tuples that are not
+// call results: the marks on them carry tuple indices of the calls the data came
+// from, so extracting from them must NOT filter by index.
 //@ func IntraAnalysisState.DoExtract
 //@   property C08
 //@   ensures Tuple: xfer(state, x, x.Tuple, x)
+//@   ensures untracked_tuples_unfiltered: istype(x.Tuple, *ssa.Next) || istype(x.Tuple, *ssa.Select) || istype(x.Tuple, *ssa.Lookup) ==> called(transfer, state, x, x.Tuple, x, "", NonIndexMark)
 
 //@ func IntraAnalysisState.DoSlice
 //@   property C08
